@@ -665,3 +665,18 @@ M("C06", "M06-3-merge-pushes-in-address-order", dict(
     checks=[("precedes", "order", "push"), ("reach", "push")]),
   title="merge_top_k establishes TopNComputer's documented precondition (items pushed in ascending address order; the per-segment fruits come from into_vec(), which promises no order) by ordering the items before the push loop; TopNComputer itself is decided under that precondition by the K06-topn harnesses",
   functions=["collector::sort_key_top_collector::merge_top_k"], bounds="")
+
+
+# =============================================================================================
+# C03: mixed-type numeric range bounds (mirbv: loop-free integer MIR -> QF_BV)
+# =============================================================================================
+M("C03", "M03-1-json-range-bound-transformations", dict(
+    kind="bounds",
+    parent=r"^query::range_query::range_query_fastfield::search_on_json_numerical_field$",
+    # column types, in source order of the match arms, per literal type
+    arms={"i64": ["i64", "u64", "f64"], "u64": ["u64", "i64", "f64"]}),
+  title="range query with an integer literal on a numeric column of another integer type: for every literal and every column value, the value satisfies the transformed bound (order-preserving u64 space) iff it satisfies the written bound numerically - lower / upper, inclusive / exclusive",
+  functions=["search_on_json_numerical_field::{closure#..} (bound transformers)"],
+  bounds="all 64-bit literals x all 64-bit column values; i64 / u64 literals on i64 / u64 columns; f64 columns and f64 literals outside (f64 literals: K03-f64-bounds-*)",
+  assumes=["BoundsRange::transform_inner / map_bound apply the closure to the inner value and keep the bound kind for TransformBound::Existing (K03-transform-bound)",
+           "search_on_u64_ff selects the rows whose mapped value satisfies the transformed bounds (bound_to_value_range: K03-bound-to-range; column scan: C08)"])
